@@ -30,7 +30,12 @@ Inductive case :=
    election was won by c2.  The real relayer is driven TWICE: fed all of [msgs] ([impl_all]) and fed only
    the coordinator's own messages of [msgs] ([impl_own]) *)
 | Timed (keys : list N) (holders : list peer) (self : peer) (c2 : option peer) (cto tto horizon : N)
-        (msgs : list (N * wmsg)) (impl_all impl_own : list wout * tend) (impl_other_error : bool).
+        (msgs : list (N * wmsg)) (impl_all impl_own : list wout * tend) (impl_other_error : bool)
+(* a case the RUNNER could not drive (a phase it scripts did not come about, it could not keep its
+   schedule, one of its waits ran into a shortened deadline - recorded as harness_error): what was
+   recorded says nothing about the code under test.  Never judged (the judge abstains), always a broken
+   correspondence ([agree] fails), so that it surfaces without ever being a failing input. *)
+| Undriven (c : case).
 
 Definition opt_peer_eqb (a b : option peer) : bool :=
   match a, b with
@@ -101,6 +106,7 @@ Definition agree (c : case) : bool :=
           && tobs_eqb (timed_model c c2 cto tto horizon msgs) impl_all
           && tobs_eqb (timed_model c c2 cto tto horizon (own_msgs c msgs)) impl_own
       end
+  | Undriven _ => false
   end.
 
 Definition judge (c : case) : bool :=
@@ -136,6 +142,7 @@ Definition judge (c : case) : bool :=
       | None => true
       | Some c => timed_ignored c horizon msgs impl_all impl_own
       end
+  | Undriven _ => true
   end.
 
 Definition tag (c : case) : N :=
@@ -168,6 +175,7 @@ Definition tag (c : case) : N :=
            + (match c2 with None => 0 | Some _ => 10 end)
            + (match own_msgs c msgs with [] => 0 | _ => 20 end))%N
       end
+  | Undriven _ => 99
   end.
 
 Definition check_all := check_cases agree judge tag.
